@@ -8,6 +8,7 @@ import (
 	"runtime"
 	"sort"
 	"strconv"
+	"strings"
 	"sync"
 	"sync/atomic"
 	"time"
@@ -40,6 +41,8 @@ type Report struct {
 	exhaustive bool
 	notes      []string
 	replayCase string
+	done       chan struct{}
+	finished   bool
 }
 
 // NewReport reads VERIF_TIER, VERIF_SEED, VERIF_BUDGET_S, VERIF_REPLAY_CASE.
@@ -59,6 +62,10 @@ func NewReport(id string) *Report {
 	}
 	r.limit = r.start.Add(time.Duration(budget * float64(time.Second)))
 	r.replayCase = os.Getenv("VERIF_REPLAY_CASE")
+	r.done = make(chan struct{})
+	if os.Getenv("VERIF_NO_WATCHDOG") == "" {
+		go r.watchdog()
+	}
 	return r
 }
 
@@ -165,9 +172,16 @@ func (r *Report) NumViolations() int {
 }
 
 // Finish writes the JSON report to $VERIF_OUT (or stdout).
-func (r *Report) Finish(rule string) {
+func (r *Report) Finish(rule string) { r.finish(rule) }
+
+func (r *Report) finish(rule string) {
 	r.mu.Lock()
 	defer r.mu.Unlock()
+	if r.finished {
+		return
+	}
+	r.finished = true
+	close(r.done)
 	cov := map[string]any{}
 	for k, v := range r.extra {
 		cov[k] = v
@@ -205,7 +219,19 @@ func (r *Report) Finish(rule string) {
 }
 
 // ParallelFor runs f(i) for i in [0,n) on VERIF_PROCS (default NumCPU) goroutines.
+//
+// Every call is numbered (k-th call of the process) and the index each worker is executing is
+// visible to the resource watchdog, so that an exploration that exhausts memory or stops making
+// progress can name the case in flight. VERIF_REPLAY_PFOR="k:i" restricts the k-th call to index i.
 func ParallelFor(n int, f func(i int)) {
+	k := int(pforCalls.Add(1))
+	only := -1
+	if v := os.Getenv("VERIF_REPLAY_PFOR"); v != "" {
+		var rk, ri int
+		if _, err := fmt.Sscanf(v, "%d:%d", &rk, &ri); err == nil && rk == k {
+			only = ri
+		}
+	}
 	p := runtime.NumCPU()
 	if v, err := strconv.Atoi(os.Getenv("VERIF_PROCS")); err == nil && v > 0 {
 		p = v
@@ -213,9 +239,36 @@ func ParallelFor(n int, f func(i int)) {
 	if p > n {
 		p = n
 	}
+	if p < 1 {
+		p = 1
+	}
+	slots := make([]*pforSlot, p)
+	for w := range slots {
+		slots[w] = &pforSlot{call: k}
+		slots[w].idx.Store(-1)
+	}
+	pforMu.Lock()
+	pforLive[k] = slots
+	pforMu.Unlock()
+	defer func() {
+		pforMu.Lock()
+		delete(pforLive, k)
+		pforMu.Unlock()
+	}()
+	run := func(w, i int) {
+		if only >= 0 && i != only {
+			return
+		}
+		sl := slots[w]
+		sl.since.Store(time.Now().UnixNano())
+		sl.idx.Store(int64(i))
+		f(i)
+		sl.idx.Store(-1)
+		progress.Add(1)
+	}
 	if p <= 1 {
 		for i := 0; i < n; i++ {
-			f(i)
+			run(0, i)
 		}
 		return
 	}
@@ -223,18 +276,130 @@ func ParallelFor(n int, f func(i int)) {
 	var wg sync.WaitGroup
 	for w := 0; w < p; w++ {
 		wg.Add(1)
-		go func() {
+		go func(w int) {
 			defer wg.Done()
 			for {
 				i := int(next.Add(1) - 1)
 				if i >= n {
 					return
 				}
-				f(i)
+				run(w, i)
 			}
-		}()
+		}(w)
 	}
 	wg.Wait()
+}
+
+type pforSlot struct {
+	call  int
+	idx   atomic.Int64 // -1: idle
+	since atomic.Int64
+}
+
+var (
+	pforCalls atomic.Int64
+	pforMu    sync.Mutex
+	pforLive  = map[int][]*pforSlot{}
+	progress  atomic.Int64 // finished cases, scheduler executions, Eval calls
+)
+
+// Progress tells the watchdog that the exploration is alive (called by the explorers).
+func Progress() { progress.Add(1) }
+
+// watchdog turns "the exploration exhausts memory" and "the exploration stopped making progress"
+// into a reported violation that names the cases in flight, instead of a killed process without
+// a report. Limits are far away from anything the harnesses need on the unchanged tree:
+// VERIF_MEM_LIMIT_MB (default 24576) of live Go heap (measured after a forced collection), VERIF_STALL_S (default 2400) without a
+// finished case, scheduler execution or Eval while a ParallelFor index is in flight.
+func (r *Report) watchdog() {
+	memLimit := uint64(24576) << 20
+	if v, err := strconv.ParseUint(os.Getenv("VERIF_MEM_LIMIT_MB"), 10, 64); err == nil && v > 0 {
+		memLimit = v << 20
+	}
+	stall := 2400 * time.Second
+	if v, err := strconv.ParseFloat(os.Getenv("VERIF_STALL_S"), 64); err == nil && v > 0 {
+		stall = time.Duration(v * float64(time.Second))
+	}
+	last, lastChange := progress.Load(), time.Now()
+	var ms runtime.MemStats
+	for {
+		select {
+		case <-r.done:
+			return
+		case <-time.After(time.Second):
+		}
+		if p := progress.Load() + r.evals.Load(); p != last {
+			last, lastChange = p, time.Now()
+		}
+		runtime.ReadMemStats(&ms)
+		if ms.HeapInuse > memLimit {
+			// harnesses may run with the collector throttled or off: only live memory counts
+			runtime.GC()
+			runtime.ReadMemStats(&ms)
+		}
+		why := ""
+		switch {
+		case ms.HeapInuse > memLimit:
+			why = fmt.Sprintf("the Go heap grew to %d MiB (limit %d MiB)", ms.HeapInuse>>20, memLimit>>20)
+		case time.Since(lastChange) > stall:
+			why = fmt.Sprintf("no case finished for %s", time.Since(lastChange).Round(time.Second))
+		default:
+			continue
+		}
+		type inflight struct {
+			call, idx int
+			age       time.Duration
+		}
+		var fl []inflight
+		pforMu.Lock()
+		for _, slots := range pforLive {
+			for _, sl := range slots {
+				if i := sl.idx.Load(); i >= 0 {
+					fl = append(fl, inflight{sl.call, int(i), time.Since(time.Unix(0, sl.since.Load()))})
+				}
+			}
+		}
+		pforMu.Unlock()
+		if len(fl) == 0 && ms.HeapInuse <= memLimit {
+			lastChange = time.Now() // a phase outside ParallelFor: nothing to attribute a stall to
+			continue
+		}
+		sort.Slice(fl, func(i, j int) bool { return fl[i].age > fl[j].age })
+		desc := ""
+		var replay any
+		key := "exploration aborted: " + why
+		if len(fl) > 0 {
+			key = fmt.Sprintf("exploration aborted (%s) with case ParallelFor#%d index %d in flight", map[bool]string{true: "memory", false: "no progress"}[ms.HeapInuse > memLimit], fl[0].call, fl[0].idx)
+			replay = map[string]any{"case": "", "env": map[string]string{"VERIF_REPLAY_PFOR": fmt.Sprintf("%d:%d", fl[0].call, fl[0].idx)}}
+			for _, x := range fl {
+				desc += fmt.Sprintf("  ParallelFor call #%d index %d, running for %s\n", x.call, x.idx, x.age.Round(time.Millisecond))
+			}
+		}
+		all := make([]byte, 4<<20)
+		all = all[:runtime.Stack(all, true)]
+		// the running goroutines inside zoekt code first (that is where a non-terminating case is)
+		var buf []byte
+		for pass := 0; pass < 2 && len(buf) < 6000; pass++ {
+			for _, g := range strings.Split(string(all), "\n\n") {
+				running := strings.Contains(g[:min(len(g), 60)], "[running]") || strings.Contains(g[:min(len(g), 60)], "[runnable]")
+				if strings.Contains(g, "(*Report).watchdog") || !strings.Contains(g, "sourcegraph/zoekt") || running != (pass == 0) {
+					continue
+				}
+				if len(g) > 1500 {
+					g = g[:1500] + "\n\t..."
+				}
+				buf = append(buf, g...)
+				buf = append(buf, "\n\n"...)
+				if len(buf) >= 6000 {
+					break
+				}
+			}
+		}
+		r.Violation(key, fmt.Sprintf("%s after %s and %d evaluations; the search/indexing code under test does not terminate or needs unbounded memory for a case of the enumerated space.\ncases in flight (longest first; re-run one alone with VERIF_REPLAY_PFOR=<call>:<index>):\n%s\ngoroutines:\n%s", why, time.Since(r.start).Round(time.Second), r.evals.Load(), desc, buf), replay)
+		r.Incomplete("aborted by the resource watchdog: %s", why)
+		r.finish("aborted by the resource watchdog (" + why + "); the cases finished before that are counted above")
+		os.Exit(3)
+	}
 }
 
 // SchedReport folds an exploration result into the report.
